@@ -232,6 +232,8 @@ class Form:
             c = self.constraints.get(idx)
             if idx in runtime:
                 txt = runtime[idx]
+                if kind in A64_REG or kind in ("X", "F"):
+                    prev_dyn = True      # a register given as a run-time expression: a following "next register" slot must be written xzr/wzr
             elif kind in A64_REG or kind in ("X", "F") and self.arch == "riscv":
                 if isinstance(c, RNext):
                     # the register after the previous one; with a dynamic predecessor the syntax requires XZR/WZR
